@@ -5,6 +5,14 @@
 //! op the exact virtual timestamps of message-builder calls, handled messages, timer-handle
 //! results and the target's exit (reason as seen by its supervisor).  No `verif` controller is
 //! installed: tasks are scheduled by tokio itself.
+//! Two target flavours: an ordinary (`Send`) actor on the harness runtime (`case <n>`), and a
+//! `ThreadLocalActor` on a `ThreadLocalActorSpawner` thread (`case <n> tl`). The spawner's thread is
+//! kept FROZEN (a `Freezer` actor on it blocks the thread in a std channel `recv`) except for the
+//! "target runs" steps of the model's schedule, during which the harness thread blocks in turn:
+//! the two threads never run at the same time, so the thread-local runs are as deterministic as the
+//! others and follow the same small-step schedule (`Timers.expand`). No real-time waits.
+//! `hold` gates `post_stop` (both flavours), `psrelease` opens the gate: timers expire, are created
+//! and tick while the target sits in `post_stop` (stopped accepting, not gone).
 //! All durations (periods, clock advances) and all timestamps are in MICROSECONDS: periods such
 //! as 900 µs, 1500 µs, 2500 µs and sub-millisecond advances are exercised next to whole ms.
 //!
@@ -12,12 +20,13 @@
 
 use std::future::Future;
 use std::panic::AssertUnwindSafe;
-use std::sync::atomic::{AtomicU32, Ordering};
+use std::sync::atomic::{AtomicU32, AtomicU64, Ordering};
 use std::sync::{Arc, Mutex};
 use std::task::Poll;
 
 use hutil::{Args, Log, Rng, Stats};
 use ractor::concurrency::{Duration, JoinHandle};
+use ractor::thread_local::{ThreadLocalActor, ThreadLocalActorSpawner};
 use ractor::{Actor, ActorProcessingErr, ActorRef, ActorStatus, MessagingErr, SupervisionEvent};
 
 type Ev = (u32, u32, u64); // (timer id, k, virtual µs)
@@ -27,6 +36,8 @@ struct Shared {
     attempts: Vec<Ev>,
     handled: Vec<Ev>,
     exit: Option<(String, u64)>,
+    /// `post_stop` was entered with the gate armed, at this instant
+    ps_entered: Option<u64>,
 }
 
 fn now_ms(t0: tokio::time::Instant) -> u64 {
@@ -38,10 +49,54 @@ fn now_ms(t0: tokio::time::Instant) -> u64 {
     d.as_micros() as u64
 }
 
-struct Target {
-    sh: Arc<Mutex<Shared>>,
-    t0: tokio::time::Instant,
+/// where the target reads the virtual time: the paused tokio clock of the harness runtime, or (on
+/// the spawner's thread, whose runtime has its own clock) a cell the harness sets before each run
+#[derive(Clone)]
+enum Clock {
+    Tokio(tokio::time::Instant),
+    Cell(Arc<AtomicU64>),
 }
+
+impl Clock {
+    fn now(&self) -> u64 {
+        match self {
+            Clock::Tokio(t0) => now_ms(*t0),
+            Clock::Cell(c) => c.load(Ordering::SeqCst),
+        }
+    }
+}
+
+#[derive(Clone)]
+struct Ctx {
+    sh: Arc<Mutex<Shared>>,
+    clock: Clock,
+    /// `true`: `post_stop` waits
+    gate: Arc<tokio::sync::watch::Sender<bool>>,
+}
+
+impl Ctx {
+    fn handled(&self, m: (u32, u32)) {
+        let t = self.clock.now();
+        self.sh.lock().unwrap().handled.push((m.0, m.1, t));
+    }
+    async fn post_stop(&self) {
+        let mut rx = self.gate.subscribe();
+        if *rx.borrow() {
+            let t = self.clock.now();
+            self.sh.lock().unwrap().ps_entered = Some(t);
+            loop {
+                if !*rx.borrow() {
+                    break;
+                }
+                if rx.changed().await.is_err() {
+                    break;
+                }
+            }
+        }
+    }
+}
+
+struct Target(Ctx);
 
 impl Actor for Target {
     type Msg = (u32, u32);
@@ -51,8 +106,87 @@ impl Actor for Target {
         Ok(())
     }
     async fn handle(&self, _me: ActorRef<Self::Msg>, m: Self::Msg, _s: &mut ()) -> Result<(), ActorProcessingErr> {
-        self.sh.lock().unwrap().handled.push((m.0, m.1, now_ms(self.t0)));
+        self.0.handled(m);
         Ok(())
+    }
+    async fn post_stop(&self, _me: ActorRef<Self::Msg>, _s: &mut ()) -> Result<(), ActorProcessingErr> {
+        self.0.post_stop().await;
+        Ok(())
+    }
+}
+
+/// the same target as a thread-local actor
+#[derive(Default)]
+struct TlTarget;
+
+impl ThreadLocalActor for TlTarget {
+    type Msg = (u32, u32);
+    type State = Ctx;
+    type Arguments = Ctx;
+    async fn pre_start(&self, _me: ActorRef<Self::Msg>, ctx: Ctx) -> Result<Ctx, ActorProcessingErr> {
+        Ok(ctx)
+    }
+    async fn handle(&self, _me: ActorRef<Self::Msg>, m: Self::Msg, ctx: &mut Ctx) -> Result<(), ActorProcessingErr> {
+        ctx.handled(m);
+        Ok(())
+    }
+    async fn post_stop(&self, _me: ActorRef<Self::Msg>, ctx: &mut Ctx) -> Result<(), ActorProcessingErr> {
+        ctx.post_stop().await;
+        Ok(())
+    }
+}
+
+/// Keeps the spawner's thread frozen: one message starts an endless cycle
+/// "acknowledge - block the whole thread until thawed - let every other task of the thread run".
+#[derive(Default)]
+struct Freezer;
+
+struct FreezerState {
+    ack: std::sync::mpsc::Sender<()>,
+    thaw: std::sync::mpsc::Receiver<()>,
+}
+
+impl ThreadLocalActor for Freezer {
+    type Msg = ();
+    type State = FreezerState;
+    type Arguments = FreezerState;
+    async fn pre_start(&self, _me: ActorRef<()>, a: FreezerState) -> Result<FreezerState, ActorProcessingErr> {
+        Ok(a)
+    }
+    async fn handle(&self, _me: ActorRef<()>, _m: (), st: &mut FreezerState) -> Result<(), ActorProcessingErr> {
+        loop {
+            let _ = st.ack.send(());
+            if st.thaw.recv().is_err() {
+                break;
+            }
+            for _ in 0..64 {
+                tokio::task::yield_now().await;
+            }
+        }
+        Ok(())
+    }
+}
+
+/// the harness side of the frozen thread
+struct Tl {
+    _spawner: ThreadLocalActorSpawner,
+    freezer: ActorRef<()>,
+    thaw: Option<std::sync::mpsc::Sender<()>>,
+    ack: std::sync::mpsc::Receiver<()>,
+    vnow: Arc<AtomicU64>,
+    stalled: bool,
+}
+
+impl Tl {
+    /// the target's thread runs until idle (64 turns for every task on it), this thread blocked meanwhile
+    fn run_target(&mut self, now: u64) {
+        self.vnow.store(now, Ordering::SeqCst);
+        if let Some(t) = &self.thaw {
+            let _ = t.send(());
+        }
+        if self.ack.recv_timeout(std::time::Duration::from_secs(20)).is_err() {
+            self.stalled = true;
+        }
     }
 }
 
@@ -138,6 +272,9 @@ enum Op {
     Stop,
     Kill,
     Drain,
+    /// gate `post_stop` / open the gate
+    Hold,
+    PsRelease,
 }
 
 impl Op {
@@ -160,6 +297,8 @@ impl Op {
             Op::Stop => "stop".into(),
             Op::Kill => "kill".into(),
             Op::Drain => "drain".into(),
+            Op::Hold => "hold".into(),
+            Op::PsRelease => "psrelease".into(),
         }
     }
     fn parse(s: &str) -> Option<Op> {
@@ -183,6 +322,8 @@ impl Op {
             "stop" => Op::Stop,
             "kill" => Op::Kill,
             "drain" => Op::Drain,
+            "hold" => Op::Hold,
+            "psrelease" => Op::PsRelease,
             _ => return None,
         })
     }
@@ -214,13 +355,37 @@ fn show_evs(mut v: Vec<Ev>) -> String {
     v.iter().map(|(i, k, t)| format!("{i}.{k}@{t}")).collect::<Vec<_>>().join(",")
 }
 
-async fn run_case(ops: &[Op]) -> Vec<String> {
+async fn run_case(tl: bool, ops: &[Op]) -> Vec<String> {
     let t0 = tokio::time::Instant::now();
     let sh = Arc::new(Mutex::new(Shared::default()));
+    let gate = Arc::new(tokio::sync::watch::channel(false).0);
     let (watcher, _wh) = Actor::spawn(None, Watcher { sh: sh.clone(), t0 }, ()).await.expect("watcher");
-    let (target, _th) = Actor::spawn_linked(None, Target { sh: sh.clone(), t0 }, (), watcher.get_cell())
-        .await
-        .expect("target");
+    let mut tlw: Option<Tl> = None;
+    let target = if tl {
+        let spawner = ThreadLocalActorSpawner::new();
+        let vnow = Arc::new(AtomicU64::new(0));
+        let (ack_tx, ack) = std::sync::mpsc::channel();
+        let (thaw, thaw_rx) = std::sync::mpsc::channel();
+        let (freezer, _fh) = Freezer::spawn(None, FreezerState { ack: ack_tx, thaw: thaw_rx }, spawner.clone())
+            .await
+            .expect("freezer");
+        let ctx = Ctx { sh: sh.clone(), clock: Clock::Cell(vnow.clone()), gate: gate.clone() };
+        let (target, _th) =
+            TlTarget::spawn_linked(None, ctx, watcher.get_cell(), spawner.clone()).await.expect("tl target");
+        quiesce().await;
+        // freeze the spawner's thread
+        freezer.cast(()).expect("freezer");
+        let mut w = Tl { _spawner: spawner, freezer, thaw: Some(thaw), ack, vnow, stalled: false };
+        if w.ack.recv_timeout(std::time::Duration::from_secs(20)).is_err() {
+            w.stalled = true;
+        }
+        tlw = Some(w);
+        target
+    } else {
+        let ctx = Ctx { sh: sh.clone(), clock: Clock::Tokio(t0), gate: gate.clone() };
+        let (target, _th) = Actor::spawn_linked(None, Target(ctx), (), watcher.get_cell()).await.expect("target");
+        target
+    };
     quiesce().await;
     let mut timers: Vec<TimerRec> = Vec::new();
     let mut out = Vec::new();
@@ -291,17 +456,28 @@ async fn run_case(ops: &[Op]) -> Vec<String> {
                     }
                 }
             }
+            // thread-local flavour: the target reacts to the call before the time driver has run
+            // (for the `Send` flavour tokio's run queue gives the same order)
             Op::AdvStop(d) => {
                 bump_clock(*d).await;
                 target.stop(Some("manual".into()));
+                if let Some(w) = tlw.as_mut() {
+                    w.run_target(now_ms(t0));
+                }
             }
             Op::AdvKill(d) => {
                 bump_clock(*d).await;
                 target.kill();
+                if let Some(w) = tlw.as_mut() {
+                    w.run_target(now_ms(t0));
+                }
             }
             Op::AdvDrain(d) => {
                 bump_clock(*d).await;
                 let _ = target.drain();
+                if let Some(w) = tlw.as_mut() {
+                    w.run_target(now_ms(t0));
+                }
             }
             Op::Abort(i) => {
                 if let Some(t) = timers.get(*i) {
@@ -317,8 +493,19 @@ async fn run_case(ops: &[Op]) -> Vec<String> {
             Op::Drain => {
                 let _ = target.drain();
             }
+            Op::Hold => {
+                let _ = gate.send_replace(true);
+            }
+            Op::PsRelease => {
+                let _ = gate.send_replace(false);
+            }
         }
+        // every runnable timer task runs, then the target, then whoever the target woke (its supervisor)
         quiesce().await;
+        if let Some(w) = tlw.as_mut() {
+            w.run_target(now_ms(t0));
+            quiesce().await;
+        }
         // timer handles
         for t in timers.iter_mut() {
             if t.res.is_some() {
@@ -362,18 +549,21 @@ async fn run_case(ops: &[Op]) -> Vec<String> {
         } else {
             timers.iter().map(|t| t.res.clone().unwrap_or_else(|| "P".into())).collect::<Vec<_>>().join(",")
         };
-        let (att, hd, exit) = {
+        let (att, hd, exit, ps) = {
             let s = sh.lock().unwrap();
-            (s.attempts[n_att..].to_vec(), s.handled[n_hd..].to_vec(), s.exit.clone())
+            (s.attempts[n_att..].to_vec(), s.handled[n_hd..].to_vec(), s.exit.clone(), s.ps_entered)
         };
         n_att += att.len();
         n_hd += hd.len();
         let status = target.get_status();
-        let tgt = match (status, exit) {
-            (ActorStatus::Running, None) => "Running".to_string(),
-            (ActorStatus::Stopped, Some((r, t))) => format!("Stopped:{r}@{t}"),
-            (s, e) => format!("{s:?}:{e:?}"),
+        let tgt = match (status, exit, ps) {
+            (ActorStatus::Stopped, Some((r, t)), _) => format!("Stopped:{r}@{t}"),
+            // inside the gated `post_stop`: whatever the status says, the message loop is over
+            (_, None, Some(t)) => format!("PostStop@{t}"),
+            (ActorStatus::Running, None, None) => "Running".to_string(),
+            (s, e, _) => format!("{s:?}:{e:?}"),
         };
+        let tgt = if tlw.as_ref().map(|w| w.stalled).unwrap_or(false) { format!("{tgt} <tl thread stalled>") } else { tgt };
         out.push(format!("t={} att={} hd={} res={} tgt={}", now_ms(t0), show_evs(att), show_evs(hd), res, tgt));
     }
     // tidy up: nothing may outlive the case
@@ -384,7 +574,23 @@ async fn run_case(ops: &[Op]) -> Vec<String> {
             Handle::Unit(h) => h.abort(),
         }
     }
+    let _ = gate.send_replace(false);
     target.kill();
+    if let Some(w) = tlw.as_mut() {
+        // the freezer's cycle ends, the thread runs freely and winds down
+        w.thaw = None;
+        w.freezer.stop(None);
+        for i in 0..20_000 {
+            if target.get_status() == ActorStatus::Stopped && w.freezer.get_status() == ActorStatus::Stopped {
+                break;
+            }
+            if i < 10_000 {
+                std::thread::yield_now();
+            } else {
+                std::thread::sleep(std::time::Duration::from_micros(100));
+            }
+        }
+    }
     watcher.kill();
     quiesce().await;
     out
@@ -395,6 +601,13 @@ fn gen_case(rng: &mut Rng, st: &mut Stats) -> Vec<Op> {
     let mut ops = Vec::new();
     let mut n_timers = 0usize;
     let mut have_exit_after = false;
+    // a third of the cases gate `post_stop` early on: the target then sits in `post_stop` (stopped
+    // accepting, not gone) while timers expire, tick and are created
+    let gated = rng.chance(1, 3);
+    let hold_at = rng.below(3) as usize;
+    if gated {
+        st.bump("cases_with_gated_post_stop");
+    }
     // small value sets so that deadlines, advances and exits coincide often
     // the case's unit: whole milliseconds (values coincide often), or microseconds with periods
     // and advances that are not whole milliseconds (tokio's wheel rounds deadlines up to 1 ms)
@@ -417,9 +630,26 @@ fn gen_case(rng: &mut Rng, st: &mut Stats) -> Vec<Op> {
     if fine {
         st.bump("cases_with_sub_ms_durations");
     }
-    for _ in 0..n {
+    for i in 0..n {
+        if gated && i as usize == hold_at {
+            ops.push(Op::Hold);
+            st.bump("hold");
+        }
         let r = rng.below(100);
-        let op = if r < 34 || n_timers == 0 {
+        let op = if gated && (80..86).contains(&r) && n_timers > 0 {
+            Op::PsRelease
+        } else if gated && r >= 86 {
+            // mostly requests that run `post_stop` (a kill skips it)
+            let d = *rng.pick(&adv);
+            match rng.below(10) {
+                0..=2 => Op::Stop,
+                3..=4 => Op::AdvStop(d),
+                5 => Op::Drain,
+                6 => Op::AdvDrain(d),
+                7 => Op::AdvKill(d),
+                _ => Op::Kill,
+            }
+        } else if r < 34 || n_timers == 0 {
             let k = rng.below(100);
             n_timers += 1;
             if k < 27 {
@@ -546,6 +776,21 @@ fn fixed_cases() -> Vec<Vec<Op>> {
         vec![Dka(2), AdvAbort(2, 0), Adv(5)],
         vec![Dea(7), Dka(7), Adv(7)],
         vec![Dka(2), Stop, Adv(2)],
+        // the target sits in a gated post_stop (stopped accepting, not gone)
+        vec![Si(3), Hold, Adv(1), Stop, Sa(2), Adv(2), Adv(4), PsRelease],
+        vec![Hold, Stop, Sa(0)],
+        vec![Hold, Stop, Si(2), Adv(2), Adv(2), PsRelease],
+        vec![Hold, Sa(5), Drain, Adv(5), PsRelease, Adv(1)],
+        vec![Hold, Sa(0), Sa(0), Drain, Adv(5), PsRelease],
+        vec![Hold, Stop, Ka(2), Adv(2)],
+        vec![Hold, Adv(1), Kill],
+        vec![Hold, Stop, Stop, Kill],
+        vec![Hold, Ea(3), Si(2), Adv(3), Adv(2), Adv(2), PsRelease],
+        vec![Hold, PsRelease, Stop],
+        vec![Hold, Stop, PsRelease, Sa(1), Adv(1)],
+        vec![Si(1), Hold, AdvStop(3), Adv(1), Adv(40), PsRelease],
+        vec![Dsi(2), Dsa(3), Hold, Adv(2), AdvDrain(1), Adv(2), PsRelease],
+        vec![Hold, Stop, Sa(1), Abort(0), Adv(1), PsRelease],
     ];
     let mut all: Vec<Vec<Op>> = whole.into_iter().map(ms_case).collect();
     all.extend(vec![
@@ -572,6 +817,8 @@ fn fixed_cases() -> Vec<Vec<Op>> {
         vec![Dka(2500), Adv(2000), Adv(500), Adv(500)],
         vec![Dea(2500), Adv(2000), Adv(1000)],
         vec![Sa(900), Dka(999), Adv(999), Adv(1)],
+        vec![Si(700), Hold, AdvStop(1500), Adv(500), Adv(1000), Adv(1000), PsRelease],
+        vec![Hold, Adv(300), Stop, Sa(700), Si(300), Adv(700), Adv(300), PsRelease],
     ]);
     all
 }
@@ -584,12 +831,14 @@ fn main() {
     let mut rng = Rng::new(seed);
     let mut st = Stats::default();
     let mut log = Log::create(std::path::Path::new(&out)).unwrap();
-    let mut all: Vec<Vec<Op>> = Vec::new();
+    // (thread-local target?, ops)
+    let mut all: Vec<(bool, Vec<Op>)> = Vec::new();
     // corpus / replay files (one op per line, `case` separates) run first
     if let Some(c) = args.0.get("replay-ops") {
         for f in c.split(',').filter(|f| !f.is_empty()) {
             let txt = std::fs::read_to_string(f).expect("corpus file");
             let mut cur: Vec<Op> = Vec::new();
+            let mut cur_tl = false;
             for line in txt.lines() {
                 let line = line.trim();
                 if line.is_empty() || line.starts_with('#') {
@@ -597,33 +846,40 @@ fn main() {
                 }
                 if line.starts_with("case") {
                     if !cur.is_empty() {
-                        all.push(std::mem::take(&mut cur));
+                        all.push((cur_tl, std::mem::take(&mut cur)));
                     }
+                    cur_tl = line.split_whitespace().any(|w| w == "tl");
                 } else if let Some(op) = Op::parse(line) {
                     cur.push(op);
                 }
             }
             if !cur.is_empty() {
-                all.push(cur);
+                all.push((cur_tl, cur));
             }
             st.bump("corpus_files");
         }
     }
     if args.u64("only-replay", 0) != 1 {
+        // every boundary case with both target flavours
         let fixed = fixed_cases();
-        st.add("fixed_cases", fixed.len() as u64);
-        all.extend(fixed);
+        st.add("fixed_cases", 2 * fixed.len() as u64);
+        all.extend(fixed.iter().cloned().map(|c| (false, c)));
+        all.extend(fixed.into_iter().map(|c| (true, c)));
         for _ in 0..cases {
-            all.push(gen_case(&mut rng, &mut st));
+            let tl = rng.chance(1, 3);
+            all.push((tl, gen_case(&mut rng, &mut st)));
         }
     }
-    for (ci, ops) in all.iter().enumerate() {
+    for (ci, (tl, ops)) in all.iter().enumerate() {
         st.bump("cases");
+        if *tl {
+            st.bump("cases_thread_local_target");
+        }
         let rt = tokio::runtime::Builder::new_current_thread().enable_time().start_paused(true).build().unwrap();
-        let res = std::panic::catch_unwind(AssertUnwindSafe(|| rt.block_on(run_case(ops))));
+        let res = std::panic::catch_unwind(AssertUnwindSafe(|| rt.block_on(run_case(*tl, ops))));
         drop(rt);
-        log.rec(format!("case {ci}"), "ok");
-        let mut h: u64 = 0xcbf29ce484222325;
+        log.rec(if *tl { format!("case {ci} tl") } else { format!("case {ci}") }, "ok");
+        let mut h: u64 = if *tl { 0x84222325cbf29ce4 } else { 0xcbf29ce484222325 };
         match res {
             Ok(obs) => {
                 for (op, o) in ops.iter().zip(obs.iter()) {
@@ -644,6 +900,12 @@ fn main() {
                     }
                     if o.contains("Stopped:") {
                         st.bump("obs_target_stopped");
+                    }
+                    if o.contains("PostStop@") {
+                        st.bump("obs_target_in_post_stop");
+                        if !o.contains("att=-") {
+                            st.bump("obs_attempt_while_in_post_stop");
+                        }
                     }
                     log.rec(format!("{t} h={h:x}"), o);
                 }
